@@ -261,7 +261,7 @@ fn check_apply(c: &mut Ctx, m: &'static fixtures::Merchant, template: &crate::tr
 }
 
 pub fn run(c: &mut Ctx) {
-    c.note("rule", json!("constructor lattice: every u64 lattice value and random values; try_add: every in-range pair; payment application: every (customer balance, merchant balance, amount) triple of the boundary lattice and random triples, through Ready states decoded from crafted bytes; wire amounts through allow_payment; full honest payments at boundary amounts. Distinct = distinct input tuple."));
+    c.note("rule", json!("constructor lattice: every u64 lattice value and random values; try_add: every in-range pair; payment application: every (customer balance, merchant balance, amount) triple of the boundary lattice and random triples, through Ready states decoded from crafted bytes; wire amounts through allow_payment; full honest payments at boundary amounts. Distinct = distinct input tuple. Added later: cross-amount checks (a proof made for X offered under Y at the encoding boundaries). The named zero constructors."));
     let lat = lattice_u64();
     let lat_i = lattice_i64();
     let nrand = c.tier.pick(200usize, 5000);
